@@ -969,14 +969,26 @@ struct equal_n_fn
 };
 
 /// Equal when both ranges are interleaved and of the same type.
-/// GIL pixels are bitwise comparable, so memcmp is used. User-defined pixels that are not bitwise comparable need to provide an overload
+/// Pixels with integral channels are bitwise comparable, so memcmp is used. Floating point channels are not (-0 == 0, NaN != NaN):
+/// they are compared with operator==, like every other pair of views. User-defined pixels that are not bitwise comparable need to provide an overload
 template<typename T, typename CS>
 struct equal_n_fn<pixel<T, CS> const*, pixel<T, CS> const*>
 {
     BOOST_FORCEINLINE
     bool operator()(pixel<T, CS> const* i1, std::ptrdiff_t n, pixel<T, CS> const* i2) const
     {
+        return equal(i1, n, i2, std::is_integral<T>());
+    }
+
+private:
+    static bool equal(pixel<T, CS> const* i1, std::ptrdiff_t n, pixel<T, CS> const* i2, std::true_type)
+    {
         return memcmp(i1, i2, n * sizeof(pixel<T, CS>)) == 0;
+    }
+
+    static bool equal(pixel<T, CS> const* i1, std::ptrdiff_t n, pixel<T, CS> const* i2, std::false_type)
+    {
+        return std::equal(i1, i1 + n, i2);
     }
 };
 
@@ -994,11 +1006,28 @@ struct equal_n_fn<planar_pixel_iterator<IC, CS>, planar_pixel_iterator<IC, CS>>
     BOOST_FORCEINLINE
     bool operator()(planar_pixel_iterator<IC, CS> const i1, std::ptrdiff_t n, planar_pixel_iterator<IC, CS> const i2) const
     {
+        return equal(i1, n, i2, std::is_integral<typename std::iterator_traits<IC>::value_type>());
+    }
+
+private:
+    static bool equal(planar_pixel_iterator<IC, CS> const i1, std::ptrdiff_t n, planar_pixel_iterator<IC, CS> const i2, std::true_type)
+    {
         // FIXME: ptrdiff_t vs size_t
         std::ptrdiff_t const byte_size = n * sizeof(typename std::iterator_traits<IC>::value_type);
         for (std::ptrdiff_t i = 0; i < mp11::mp_size<CS>::value; ++i)
         {
             if (memcmp(dynamic_at_c(i1, i), dynamic_at_c(i2, i), byte_size) != 0)
+                return false;
+        }
+        return true;
+    }
+
+    // floating point channels are not bitwise comparable (-0 == 0, NaN != NaN)
+    static bool equal(planar_pixel_iterator<IC, CS> const i1, std::ptrdiff_t n, planar_pixel_iterator<IC, CS> const i2, std::false_type)
+    {
+        for (std::ptrdiff_t i = 0; i < mp11::mp_size<CS>::value; ++i)
+        {
+            if (!std::equal(dynamic_at_c(i1, i), dynamic_at_c(i1, i) + n, dynamic_at_c(i2, i)))
                 return false;
         }
         return true;
